@@ -9,4 +9,5 @@ Definition keepNat : nat := length (@nil N).
 Extraction "model_c11.ml" keepN keepZ keepNat model_dec judge_dec model_enc judge_enc model_b58 judge_b58
   base58_decode base58_encode accessors to_bytes from_bytes embedded_decode default_prefix crc32
   varnat_encode varnat_decode wf_addressb lenient_class panic_class
-  model_bech model_bech5 model_bechd judge_bech check_hrp.
+  model_bech model_bech5 model_bechd judge_bech check_hrp
+  judge_b58a judge_becha byron_from_base58 byron_to_base58 b32_encode b32_decode from_bech32.
